@@ -4,8 +4,16 @@ use crate::Report;
 use in_toto::interchange::{DataInterchange, Json};
 use serde_json::{json, Value};
 
+/// the canonical encoding, asked of BOTH interchange types the crate offers (they must agree on every value)
 fn canon(v: &Value) -> Result<Vec<u8>, String> {
-    match no_panic(|| Json::canonicalize(v)) { Ok(Ok(b)) => Ok(b), Ok(Err(e)) => Err(format!("Err({})", e)), Err(p) => Err(format!("panic: {}", p)) }
+    let one = |r: Result<in_toto::Result<Vec<u8>>, String>| -> Result<Vec<u8>, String> { match r { Ok(Ok(b)) => Ok(b), Ok(Err(e)) => Err(format!("Err({})", e)), Err(p) => Err(format!("panic: {}", p)) } };
+    let a = one(no_panic(|| Json::canonicalize(v)));
+    let b = one(no_panic(|| in_toto::interchange::JsonPretty::canonicalize(v)));
+    match (&a, &b) {
+        (Ok(x), Ok(y)) if x == y => a,
+        (Err(x), Err(y)) if x.starts_with("Err") == y.starts_with("Err") => a,
+        _ => Err(format!("interchanges disagree: Json -> {:?}, JsonPretty -> {:?}", a.as_ref().map(|x| String::from_utf8_lossy(x).to_string()), b.as_ref().map(|x| String::from_utf8_lossy(x).to_string()))),
+    }
 }
 
 /// independent reference writer (sorted keys, no whitespace, serde_json string tokens, exact integers)
